@@ -117,6 +117,10 @@ func fnExprJS(e *sx) string {
 		return "(" + fnExprJS(a[0]) + " instanceof " + fnExprJS(a[1]) + ")"
 	case "log":
 		return "log(" + fnExprJS(a[0]) + ")"
+	case "dne":
+		return "Object.defineProperty(" + fnExprJS(a[0]) + ", " + strconv.Quote(a[1].name) + ", {value: " + fnExprJS(a[2]) + ", enumerable: false, writable: true, configurable: true})"
+	case "val":
+		return "(0, " + fnExprJS(a[0]) + ")"
 	case "evd":
 		return "eval(" + strconv.Quote(fnBodyJS(a[0], a[1], a[2])) + ")"
 	case "evi":
@@ -158,6 +162,9 @@ func fnStmtJS(s *sx) string {
 		}
 		return "return " + fnExprJS(a[0]) + ";"
 	case "I":
+		if len(a[2].args) == 0 {
+			return "if (" + fnExprJS(a[0]) + ") " + fnBlockJS(a[1])
+		}
 		return "if (" + fnExprJS(a[0]) + ") " + fnBlockJS(a[1]) + " else " + fnBlockJS(a[2])
 	case "W":
 		return "while (" + fnExprJS(a[0]) + ") " + fnBlockJS(a[1])
@@ -172,6 +179,30 @@ func fnStmtJS(s *sx) string {
 			out += " finally " + fnBlockJS(a[5])
 		}
 		return out
+	case "VS":
+		return "var " + a[0].name + " = " + fnExprJS(a[1]) + ";"
+	case "B":
+		return fnBlockJS(s)
+	case "WI":
+		return "with (" + fnExprJS(a[0]) + ") " + fnBlockJS(a[1])
+	case "FI":
+		kw := ""
+		if a[0].name == "1" {
+			kw = "var "
+		}
+		return "for (" + kw + a[1].name + " in " + fnExprJS(a[2]) + ") " + fnBlockJS(a[3])
+	case "LB":
+		return a[0].name + ": " + fnStmtJS(a[1])
+	case "BR":
+		if a[0].name == "_" {
+			return "break;"
+		}
+		return "break " + a[0].name + ";"
+	case "CN":
+		if a[0].name == "_" {
+			return "continue;"
+		}
+		return "continue " + a[0].name + ";"
 	}
 	panic("bad fn stmt " + s.name)
 }
